@@ -392,3 +392,11 @@ _targets_c16_core = targets
 def targets():      # noqa: F811
     from . import c12
     return _targets_c16_core() + [target_names(), c12.target_fit_identifiers()]
+
+
+_targets_before_observers = targets
+
+
+def targets():      # noqa: F811
+    from . import purity
+    return _targets_before_observers() + [purity.target_observers(["circuit/base", "circuit/series", "circuit/parallel", "circuit/circuit", "circuit/circuit_builder", "circuit/transmission_line_model"], "circuit observers keep no state")]
